@@ -180,6 +180,14 @@ func checkC09(a *checkArgs, r *Result) error {
 				hist = append([]string{"w" + hxe(big)}, hist...)
 				data = append(big, data...)
 			}
+			if i%4 == 2 || i == 3 {
+				// one Write that crosses block boundaries, blocks larger than the encoder ring:
+				// chunks are flushed to the sink inside that Write
+				c.DictCap, c.BufSize, c.BlockSize = 4096, 4096, 120000
+				big := genRandom(rng, 300000)
+				hist = append([]string{"w" + hxe(big)}, hist...)
+				data = append(big, data...)
+			}
 			cfg := c.config()
 			bases = append(bases, base{"xz", fmt.Sprintf("xz/%d", i), c.String(), func(w io.Writer) (wcloser, error) { return cfg.NewWriter(w) }, hist, data})
 		case 1:
